@@ -146,7 +146,11 @@ extern "C" void harness_overrides(void)
     int wantChip = chip < 0 ? synth.m_insBankSetup.chipType : chip;
     VASSERT(opn2_getLfoEnabled(dev) == wantEn && opn2_getLfoFrequency(dev) == wantFr && opn2_getChipType(dev) == wantChip, "getters return the value set (bank default for -1)");
     VASSERT(g_tap.reg[0][0][0x22] == ((wantEn ? 8 : 0) | (wantFr & 7)), "the chip's LFO register carries the setting");
+#ifdef FOLLOW
+    switch(FOLLOW)                                  // one follow-up call per solver run (the obligations enumerate them)
+#else
     switch(nondet_uchar() % 3)
+#endif
     {
     case 0: opn2_reset(dev); break;
     case 1: p->applySetup(); break;                 // what LoadMIDI_pre/LoadBank do before/after loading
@@ -170,7 +174,11 @@ extern "C" void harness_hooks(void)
     int tag1, tag2;
     opn2_setLoopStartHook(dev, hook_start, &tag1);
     opn2_setLoopEndHook(dev, hook_end, &tag2);
+#ifdef FOLLOW
+    switch(FOLLOW)                                  // one follow-up call per solver run (the obligations enumerate them)
+#else
     switch(nondet_uchar() % 5)
+#endif
     {
     case 0: opn2_reset(dev); break;
     case 1: opn2_switchEmulator(dev, OPNMIDI_EMU_MAME); break;
